@@ -100,6 +100,7 @@ def run_scenarios(ctx, plan, label, mem_limit=False, txprog=False):
             lines = open(tracef).read().split("\n")
             n_ev = sum(1 for l in lines if l.startswith(("pev ", "bev ", "gev ")))
             events += n_ev
+            n_ev += sum(1 for l in lines if l.startswith("gpc "))
             bad = [j for j, o in enumerate(out[:len(lines)]) if o in ("rejected", "bad-op") or o.startswith("rejected-prog")]
             kinds = {}
             for l in lines:
@@ -114,7 +115,9 @@ def run_scenarios(ctx, plan, label, mem_limit=False, txprog=False):
                     "scenario": sc, "scenario_seed": seed, "rounds": rounds, "widen": widen,
                     "rejected_event": lines[j], "position": j, "preceding": lines[max(0, j - 40):j], "driver_says": out[j],
                     "ops": [f"stress {sc} {seed} {rounds} {widen}"],
-                    "explain": "the implementation took a step that the locking protocol model (Model/Proto.lean, about which the theorems are proved) does not allow in the state reached by the earlier steps; the scenario's own invariants held in this run"},
+                    "explain": ("the gate protocol (Model/Gate.lean) accepts the step, but no path of the program model of the code around store.execMu (Model/GateProg.lean: Serve closure, execCommand, exec, blockingPop's look) emits this goroutine's events in this order with the connection state the harness observed (gpc lines)"
+                                if out[j] == "rejected-prog" else
+                                "the implementation took a step that the locking protocol model (Model/Proto.lean, about which the theorems are proved) does not allow in the state reached by the earlier steps; the scenario's own invariants held in this run")},
                     no_input=True)
                 return runs
             if txprog and not txprog_replay(ctx, tracef, sc, seed, rounds, widen, lines):
